@@ -1032,18 +1032,28 @@ class Machine:
             ds = importlib.import_module("traffic_weaver.datasets")
             d["call"] = lambda wv: ds.load_dataset(name)
             d["text"] = f"load_dataset({name!r})"
-        elif c == "match-unknown-target-rule":
-            rule = st.pick(("simpson", "rect", "", "Trapezoid"), "rule")
-            d["call"] = lambda wv: wv.integral_match(target_function_integral_method=rule)
-            d["text"] = f"integral_match(target_function_integral_method={rule!r})"
-        elif c == "match-unknown-reference-rule":
-            rule = st.pick(("simpson", "rectangular", "", "Rectangle"), "rule")
-            d["call"] = lambda wv: wv.integral_match(reference_function_integral_method=rule)
-            d["text"] = f"integral_match(reference_function_integral_method={rule!r})"
-        elif c == "match-unknown-strategy":
-            s = st.pick(("nearest", "floor", "", "Closest"), "strategy")
-            d["call"] = lambda wv: wv.integral_match(fixed_points_finding_strategy=s)
-            d["text"] = f"integral_match(fixed_points_finding_strategy={s!r})"
+        elif c in ("match-unknown-target-rule", "match-unknown-reference-rule", "match-unknown-strategy"):
+            # surrounding VALID arguments vary: none, an exponent, the other rule, explicit fixed points (values or indices)
+            kw = {}
+            extra = st.draw(0, 4, "surrounding")
+            if extra == 1:
+                kw["alpha"] = st.pick((0.5, 2.0), "alpha")
+            elif extra == 2:
+                kw["fixed_points_in_x"] = [float(v) for v in rx]
+            elif extra == 3:
+                kw["fixed_points_indices_in_x"] = [int(i) for i in np.searchsorted(x, rx)]
+            elif extra == 4:
+                kw["target_function_integral_method" if c != "match-unknown-target-rule" else
+                   "reference_function_integral_method"] = st.pick(("trapezoid", "rectangle"), "other-rule")
+            if c == "match-unknown-target-rule":
+                kw["target_function_integral_method"] = st.pick(("simpson", "rect", "", "Trapezoid"), "rule")
+            elif c == "match-unknown-reference-rule":
+                kw["reference_function_integral_method"] = st.pick(("simpson", "rectangular", "", "Rectangle"), "rule")
+            else:
+                kw["fixed_points_finding_strategy"] = st.pick(("nearest", "floor", "", "Closest"), "strategy")
+            d["call"] = lambda wv: wv.integral_match(**kw)
+            d["text"] = "integral_match(" + ", ".join(f"{k}={(v if not isinstance(v, list) else '<valid, %d>' % len(v))!r}"
+                                                      for k, v in kw.items()) + ")"
         elif c == "match-fixed-points-not-samples":
             pts = [float(v) for v in rx]
             i = st.draw(0, len(pts) - 1, "which")
